@@ -416,7 +416,8 @@ Proof.
   - (* ready *)
     cbn [step]. destruct (negb (c_conn s)).
     + cbn. eexists. split; [reflexivity|]. split; [|reflexivity]. repeat split; assumption.
-    + cbn. eexists. split; [reflexivity|]. split; [|reflexivity]. repeat split; cbn; assumption.
+    + cbn [snd fst step18]. change (0 =? 0) with true. cbn iota. rewrite Z.eqb_refl. cbn [negb].
+      eexists. split; [reflexivity|]. split; [|reflexivity]. repeat split; cbn; assumption.
   - (* server message *)
     cbn [step]. destruct (handle_msg s msg) as [[s1 e] d] eqn:Hh. cbn [fst snd app step18 routing_obs].
     destruct (c_acc s) eqn:Ea.
